@@ -507,6 +507,10 @@ func (e *Env) evalCallWith0(call *ast.CallExpr, st *State, args []Value) Value {
 	}
 	// contracts
 	if ct := c.contractFor(cl); ct != nil {
+		// "inline": the contract is checked on the function itself; callers see the body
+		if fi := c.W.ByObj[cl.fn]; ct.Flags["inline"] != "" && fi != nil && !cl.iface && c.canInline(fi) {
+			return e.inlineFunc(fi, call, st, cl, recvVal, args)
+		}
 		return e.applyContract(call, st, cl, ct, recvVal, args)
 	}
 	fi := c.W.ByObj[cl.fn]
@@ -638,7 +642,11 @@ func (c *FCtx) canInline(fi *FuncInfo) bool {
 	}
 	if ct := c.W.Specs.ByKey[fi.Key]; ct != nil {
 		// a contract that takes no part in this property's view does not stand in for the body
-		if c.LockSweep || c.PropFilter == "" || propView(ct, c.PropFilter) != nil {
+		if c.LockSweep || c.PropFilter == "" {
+			return false
+		}
+		if v := propView(ct, c.PropFilter); v != nil && v.Flags["inline"] == "" {
+			// ("inline": the contract is checked on the function itself, callers still see the body)
 			return false
 		}
 	}
